@@ -48,6 +48,7 @@ macro_rules! for_props {
             $m!(props::c10::C01Pool);
             $m!(props::c10::C15Pool);
             $m!(props::c18::C18);
+            $m!(props::c18::C11Pool);
         }
     };
 }
